@@ -753,7 +753,13 @@ impl Sink<Bytes> for Substream {
                 Poll::Ready(Err(error)) => return Poll::Ready(Err(error.into())),
                 Poll::Pending => {
                     self.pending_out_frame = Some(pending_frame);
-                    break;
+
+                    // The transport cannot take more data right now. Flush what it has accepted so
+                    // far, but the sink is not flushed until the queued frames are written too.
+                    if let Poll::Ready(Err(error)) = poll_flush!(&mut self.substream, cx) {
+                        return Poll::Ready(Err(error.into()));
+                    }
+                    return Poll::Pending;
                 }
                 Poll::Ready(Ok(nwritten)) => {
                     pending_frame.advance(nwritten);
